@@ -204,3 +204,20 @@ func TestStreamStatus(t *testing.T) {
 	}
 	out.write(t, "status")
 }
+
+// TestStreamProofs generates the state-proof verification stream (C08): real IAVL and real
+// Merkle-Patricia proofs against the three client types.
+func TestStreamProofs(t *testing.T) {
+	seed := uint64(envInt("VERIF_SEED", 1))
+	cases := envInt("VERIF_CASES", 4)
+	nops := envInt("VERIF_OPS", 30)
+	out := &streamOut{stats: map[string]int{}}
+	for i := 0; i < cases; i++ {
+		r := &Rng{s: seed*1000003 + uint64(i)*7919 + 71}
+		w := NewWorld(t, 2)
+		g := &ProofGen{w: w, r: r, stats: map[string]int{}}
+		g.Run(nops/3+2, i)
+		out.add(w, g.stats)
+	}
+	out.write(t, "proofs")
+}
